@@ -1,6 +1,7 @@
 """C04 - subcommand routing runs exactly the addressed command with its own bindings."""
 import random
-from vlib import core, tree as T
+import os
+from vlib import core, tree as T, harvest
 from props import treecommon as tc
 
 PROP = "C04"
@@ -42,6 +43,18 @@ def run(tier, wd):
             nontriv += 1
             if len(rep.cov["samples"]) < 5 and len(c["argv"]) >= 3 and rnd.random() < 0.01:
                 rep.cov["samples"].append({"argv": c["argv"], "specification": {"kind": c["kind"], "command": c["path"]}, "library_log": r["log"]})
+    # binding B: every Cmd.parse call of the repository's own tests (hooks on) must split its arguments and find the help token
+    # the way the routing rules say
+    sub = os.path.join(wd, "harvest")
+    os.makedirs(sub, exist_ok=True)
+    harvest.record(sub)
+    nlev, badlev = harvest.validate_levels(rep, sub)
+    for e in badlev[:5]:
+        rep.violation("repository test run: Cmd.parse with arguments %s and sub commands %s split at %d (help index %d), the routing rules say otherwise" % (
+            e["argv"], e["subs"], e["nargs"], e["help"]), {"engine": "leveltrace", "event": e})
+    rep.cov["harvested_parse_calls_validated"] = nlev
+    rep.cov["evaluations"] += nlev
+    rep.cov["traces_validated_against_impl"] += nlev
     rep.cov["outcome_kinds"] = kinds
     rep.cov["distinct_nontrivial"] = nontriv
     rep.cov["exhaustive"] = True
@@ -56,4 +69,14 @@ def run(tier, wd):
 
 
 def replay(path, wd):
+    import json
+    with open(path) as f:
+        o = json.load(f)["replay"]
+    if o.get("engine") == "leveltrace":
+        rep = core.Report(PROP, "quick", "model_checking")
+        core.build_harness()
+        harvest.record(wd)
+        n, bad = harvest.validate_levels(rep, wd)
+        print("replay: %d recorded Cmd.parse calls, %d disagree with the routing rules" % (n, len(bad)))
+        return 1 if bad else 0
     return tc.replay(path, wd, CLAUSES)
